@@ -747,9 +747,9 @@ func (db *DB) buildSetIdx(bucket string, r *Record) error {
 	}
 
 	if r.H.meta.Flag == DataDeleteFlag {
-		// Commit ignores the outcome of SRem (removing from a set that does not
-		// exist, ...); the rebuild must accept the same log.
-		_ = db.SetIdx[bucket].SRem(string(r.E.Key), r.E.Value)
+		// exactly what Commit does (removing from a set that does not exist is a
+		// no-op there too); not Set.SRem, which refuses the empty member
+		delete(db.SetIdx[bucket].M[string(r.E.Key)], string(r.E.Value))
 	}
 
 	return nil
